@@ -1091,6 +1091,10 @@ func (g *Gen) genC18() {
 		if r.P(10) {
 			uri = r.Pick("sip:foo;", "sip:foo?", "sip:u@h:5060;", "sip:foo:0", "sip:u@foo.bar:000?h=1", "sip:h;a?")
 		}
+		if r.P(12) {
+			// tel: with the sip-style delimiters (a "password" before the number, ports, parameters)
+			uri = r.Pick("tel:", "TEL:", "tel:+") + r.RandBytes(":@;?&=.a1", 1, 8)
+		}
 		off := []int{0, 1, 4, 255, 65535 - len(uri) - 2}[r.N(5)]
 		if r.P(30) {
 			off = r.N(60000)
@@ -1146,7 +1150,9 @@ func (g *Gen) genC18() {
 				lg, sh := u.Long(), u.Short()
 				lastEnd := 0
 				for _, f := range comps(&u) {
-					if f.Len > 0 {
+					// the last non-empty component is the one that lies last in the text (for tel: the
+					// number, kept in User, lies after a password)
+					if f.Len > 0 && fend(f) > lastEnd {
 						lastEnd = fend(f)
 					}
 				}
